@@ -348,12 +348,12 @@ Print Assumptions C17_p12_no_substitution.
 Print Assumptions C17_p12_wrong_password.
 
 (* non-vacuity: the password-based encryption with the real RC2 model, the model of pbkdf.go over a toy
-   20-byte hash, CBC and padding, evaluated (5-byte key, 8-byte IV, 2048 iterations each) *)
+   20-byte hash, CBC and padding, evaluated (5-byte key, 8-byte IV, 3 iterations each) *)
 Example C17_p12_pbe_example :
   let kdf := kdf_inst (toy_hash 20) in
   let create := create_inst (fun k b => b) (fun k b => b) in
-  (do e <- pbEncrypt kdf create (mkBlob PBERC2 [1;2;3;4;5;6;7;8]%N 2048 []) [10;20;30;40;50;60;70;80;90]%N [0;112;0;119;0;0]%N;
+  (do e <- pbEncrypt kdf create (mkBlob PBERC2 [1;2;3;4;5;6;7;8]%N 3 []) [10;20;30;40;50;60;70;80;90]%N [0;112;0;119;0;0]%N;
    pbDecrypt kdf create e [0;112;0;119;0;0]%N) = Ok [10;20;30;40;50;60;70;80;90]%N /\
-  (do e <- pbEncrypt kdf create (mkBlob PBERC2 [1;2;3;4;5;6;7;8]%N 2048 []) [10;20;30;40;50;60;70;80;90]%N [0;112;0;119;0;0]%N;
+  (do e <- pbEncrypt kdf create (mkBlob PBERC2 [1;2;3;4;5;6;7;8]%N 3 []) [10;20;30;40;50;60;70;80;90]%N [0;112;0;119;0;0]%N;
    Ok (length (pb_data e))) = Ok 16.
 Proof. vm_compute. split; reflexivity. Qed.
